@@ -86,6 +86,7 @@ func checkC05(w *World, r *Report) {
 	checkLengthPrefixes(w, r, "R05.6")
 	checkSizes(w, r)
 	checkLenMinus(w, r)
+	checkNarrowBounds(w, r)
 	checkOffsetProvenance(w, r, reach)
 
 	// R05.7
